@@ -118,7 +118,7 @@ pub fn a85_encode(data: &[u8], style: A85Style) -> Vec<u8> {
         out.push(s);
         match style {
             A85Style::Lines if i % 10 == 9 => out.push(b'\n'),
-            A85Style::Spaced => out.push([b' ', b'\n', b'\r', b'\t'][i % 4]),
+            A85Style::Spaced => out.push([0x0c, 0, b' ', b'\n', b'\r', b'\t'][i % 6]),
             _ => {}
         }
     }
